@@ -38,19 +38,25 @@ var (
 	}()
 	wsFalse = []byte{txscript.OP_0}
 	wsDrop  = []byte{txscript.OP_DROP, txscript.OP_1}
+	// a compressed-format key that is no curve point (no point has x = 0): a failed
+	// signature check, not an error, under consensus rules
+	offCurveKey = append([]byte{0x02}, make([]byte, 32)...)
+	wsBadKey    = cat(push(offCurveKey), []byte{txscript.OP_CHECKSIG, txscript.OP_NOT})
+	derOneOne   = []byte{0x30, 0x06, 0x02, 0x01, 0x01, 0x02, 0x01, 0x01, 0x01} // r = s = 1, SIGHASH_ALL
 
 	specialScripts = map[string][]byte{
-		"p2shfalse":  p2sh(redeemFalse),
-		"p2shsigops": p2sh(redeemSigops),
-		"cltv":       {txscript.OP_2, txscript.OP_CHECKLOCKTIMEVERIFY, txscript.OP_DROP, txscript.OP_1},
-		"csv":        {txscript.OP_2, txscript.OP_CHECKSEQUENCEVERIFY, txscript.OP_DROP, txscript.OP_1},
-		"nonder":     cat(push(junkSig), push(genCompressed), []byte{txscript.OP_CHECKSIG, txscript.OP_NOT}),
-		"nulldummy":  cat([]byte{txscript.OP_1}, push(genCompressed), []byte{txscript.OP_1, txscript.OP_CHECKMULTISIG, txscript.OP_NOT}),
-		"p2wshfalse": p2wsh(wsFalse),
-		"p2wshdrop":  p2wsh(wsDrop),
-		"p2tr":       cat([]byte{txscript.OP_1}, push(genX)),
+		"p2shfalse":   p2sh(redeemFalse),
+		"p2shsigops":  p2sh(redeemSigops),
+		"cltv":        {txscript.OP_2, txscript.OP_CHECKLOCKTIMEVERIFY, txscript.OP_DROP, txscript.OP_1},
+		"csv":         {txscript.OP_2, txscript.OP_CHECKSEQUENCEVERIFY, txscript.OP_DROP, txscript.OP_1},
+		"nonder":      cat(push(junkSig), push(genCompressed), []byte{txscript.OP_CHECKSIG, txscript.OP_NOT}),
+		"nulldummy":   cat([]byte{txscript.OP_1}, push(genCompressed), []byte{txscript.OP_1, txscript.OP_CHECKMULTISIG, txscript.OP_NOT}),
+		"p2wshfalse":  p2wsh(wsFalse),
+		"p2wshdrop":   p2wsh(wsDrop),
+		"p2wshbadkey": p2wsh(wsBadKey),
+		"p2tr":        cat([]byte{txscript.OP_1}, push(genX)),
 	}
-	specialOrder = []string{"p2shfalse", "p2shsigops", "cltv", "csv", "nonder", "nulldummy", "p2wshfalse", "p2wshdrop", "p2tr"}
+	specialOrder = []string{"p2shfalse", "p2shsigops", "cltv", "csv", "nonder", "nulldummy", "p2wshfalse", "p2wshdrop", "p2wshbadkey", "p2tr"}
 )
 
 const p2shSigops = 11
